@@ -42,7 +42,8 @@ static void attr(QDomElement &e, const QString &n, const QString &v) { vp_dom_se
 #include "StringLiterals.h"
 static void warmLiterals()
 {
-#include "c08_literals.inc"
+    // literals used on more than one path of the code under check (QXmppStanza::parse, QXmppIq::parse, checkIsIqRequest, payload parsers)
+    (void)u"type"_s; (void)u"from"_s; (void)u"to"_s; (void)u"id"_s; (void)u"lang"_s; (void)u"query"_s; (void)u"name"_s; (void)u"os"_s; (void)u"version"_s; (void)u"node"_s;
 }
 static void internAttrs()
 {
@@ -69,10 +70,12 @@ struct SymIq {
     unsigned effNs(int i) const { return ns[i] == NS_NONE ? unsigned(NS_CLIENT) : ns[i]; }
     bool firstIs(unsigned t, unsigned n) const { return nch >= 1 && tag[0] == t && effNs(0) == n; }
 };
-// ty (IQ type class) and hasFrom are fixed by the caller (one switch branch each, see DISPATCH12); everything else is symbolic
+// ty: TY_GET / TY_SET are fixed by the caller (one switch branch each, see DISPATCH); ty >= TY_RESULT means "no request" and is
+// chosen here among result / error / empty / garbage (string content symbolic, one block).  hasFrom: attribute present (possibly empty).
 static void symIq(SymIq &q, unsigned ty, bool hasFrom, unsigned maxChildren, const QString &iqTag = L("iq"))
 {
     q.iq = el(iqTag, L("jabber:client"));
+    if (ty >= TY_RESULT) { ty = vp_u8(); vp_assume(ty >= TY_RESULT && ty < NTY); }   // all types that are no request share one branch: symbolic content
     q.ty = ty;
     vp_c08_pick_type(&q.type, q.ty);
     if (q.ty == TY_GARBAGE) vp_assume(!(q.type == L("get")) && !(q.type == L("set")) && !(q.type == L("result")) && !(q.type == L("error")));
